@@ -70,7 +70,7 @@ def _unsilence():
 # ------------------------------------------------------------------ 1. custom validators
 
 def _validator_classes(fault):
-    from traits.api import HasTraits, TraitType, Int, Either, Tuple, Str, TraitError
+    from traits.api import HasTraits, TraitType, Int, Either, Tuple, Str, TraitError, Union
 
     class Even(TraitType):
         default_value = 0
@@ -94,6 +94,7 @@ def _validator_classes(fault):
         e = Even()
         n = Neg()
         en = Either(Even(), Neg())
+        un = Union(Even(), Neg())          # the Python-level compound (Union.validate), not the C one
         t = Tuple(Even(), Neg(), Even())
         i = Int(7)
         s = Str("s")
@@ -127,10 +128,10 @@ def run_validator(c):
     def play(obj, steps, fault_at):
         res = []
         log = []
-        obj.on_trait_change(lambda o, n, old, new: log.append((n, old, new)), "e,n,en,t,i,s,de,dn")
+        obj.on_trait_change(lambda o, n, old, new: log.append((n, old, new)), "e,n,en,un,t,i,s,de,dn")
         for j, (name, val, via) in enumerate(steps):
             val = tuple(val) if isinstance(val, list) else val
-            snap = dict((a, getattr(obj, a)) for a in ("e", "n", "en", "t", "i", "s"))
+            snap = dict((a, getattr(obj, a)) for a in ("e", "n", "en", "un", "t", "i", "s"))
             # the dynamic-default traits are never read by the harness itself: whether `de`/`dn` are
             # materialised is part of the state ("caches are as before"), seen through __dict__
             raw = _plain_dict(obj)
@@ -157,7 +158,7 @@ def run_validator(c):
                 r = "err " + S.exc_name(ex)
             fired = fault.fired if j == fault_at else False
             fault.disarm()
-            after = dict((a, getattr(obj, a)) for a in ("e", "n", "en", "t", "i", "s"))
+            after = dict((a, getattr(obj, a)) for a in ("e", "n", "en", "un", "t", "i", "s"))
             if r.startswith("err") and via != "get":
                 snap["__dict__"], snap["default-calls"] = raw, 0
                 after["__dict__"], after["default-calls"] = _plain_dict(obj), len(DCALLS) - ncalls
@@ -798,7 +799,112 @@ def run_legacy_chain(c):
     return r, hits, tags
 
 
-RUNNERS = {"observe-filter": run_observe_filter, "legacy-chain": run_legacy_chain, "validator": run_validator, "default": run_default, "property": run_property,
+# ------------------------------------------------------------------ 10. deferred traits (DelegatesTo / PrototypedFrom)
+
+def run_delegate(c):
+    """Assignments through deferring attributes whose target trait has a user validator: a failing validator must leave
+    values, local shadows AND the forwarding of the target's changes to the deferring attribute's listeners as they were
+    (fault-free twin for the rest of the history)."""
+    from traits.api import HasTraits, TraitType, Instance, PrototypedFrom, DelegatesTo
+    fault = Fault()
+
+    class Even(TraitType):
+        default_value = 0
+
+        def validate(self, obj, name, value):
+            fault.tick()
+            if isinstance(value, int) and value % 2 == 0:
+                return value
+            self.error(obj, name, value)
+
+    class Proto(_Base()):
+        x = Even()
+        y = Even()
+
+    class Item(_Base()):
+        proto = Instance(Proto)
+        x = PrototypedFrom("proto")
+        y = DelegatesTo("proto")
+        px = PrototypedFrom("proto", "x")
+
+    def play(steps, fault_at):
+        protos = [Proto(x=2, y=4), Proto(x=6, y=8)]
+        item = Item(proto=protos[0])
+        log = []
+        for nm in ("x", "y", "px"):
+            item.on_trait_change(lambda o, n, old, new: log.append(("item", n, old, new)), nm)
+        if c.get("observe"):
+            item.observe(lambda ev: log.append(("obs", ev.name, ev.old, ev.new)), "x")
+        def plog(tag):
+            return lambda o, n, old, new: log.append((tag, n, old, new))
+        for i, p in enumerate(protos):
+            p.on_trait_change(plog("proto%d" % i), "x,y")
+        res = []
+        for j, (who, name, val) in enumerate(steps):
+            tgt = item if who == "item" else protos[int(who[-1])]
+            snap = (item.x, item.y, item.px, protos[0].x, protos[0].y, protos[1].x, protos[1].y, sorted(_plain_dict(item)))
+            if j == fault_at:
+                fault.arm(0, c["exc"])
+            del log[:]
+            try:
+                if name == "del":
+                    delattr(tgt, val)
+                elif name == "swap":
+                    item.proto = protos[val]
+                else:
+                    setattr(tgt, name, val)
+                r = "ok"
+            except Exception as ex:
+                r = "err " + S.exc_name(ex)
+            fired = fault.fired if j == fault_at else False
+            fault.disarm()
+            after = (item.x, item.y, item.px, protos[0].x, protos[0].y, protos[1].x, protos[1].y, sorted(_plain_dict(item)))
+            res.append((r, after, list(log), fired, snap))
+        return res
+    hits, tags = [], set()
+    steps, at = c["steps"], c["at"]
+    f = play(steps, at)
+    if f[at][3]:
+        tags.add("fired:delegate:%s.%s:%s" % (steps[at][0][:4], steps[at][1], c["exc"]))
+        r, after, log, _, snap = f[at]
+        sg = "delegate:%s.%s" % (steps[at][0][:4], steps[at][1])
+        if not r.startswith("err"):
+            hits.append(_hit("callback-failure-swallowed:" + sg, "injected %s swallowed" % c["exc"]))
+        elif r.split()[1] not in (c["exc"], "TraitError"):
+            hits.append(_hit("callback-exception-changed:" + sg, "injected %s surfaced as %s" % (c["exc"], r)))
+        if after != snap:
+            hits.append(_hit("failed-op-mutated:" + sg, "values / local shadows changed by a failing assignment", before=repr(snap), after=repr(after)))
+        if log:
+            hits.append(_hit("failed-op-notified:" + sg, "handlers notified by a failing assignment", log=repr(log)))
+        t = play(steps[:at] + steps[at + 1:], -1)
+        frest = [x[:3] for i, x in enumerate(f) if i != at]
+        if frest != [x[:3] for x in t]:
+            k = next(i for i, (a, b) in enumerate(zip(frest, [x[:3] for x in t])) if a != b)
+            hits.append(_hit("twin-differs:" + sg, "after the failed assignment the object behaves differently from a fault-free twin "
+                             "(values, local shadows or which listeners are told about a change of the target)",
+                             step=repr((steps[:at] + steps[at + 1:])[k]), got=repr(frest[k]), twin=repr(t[k][:3])))
+    return " ; ".join(x[0] for x in f), hits, tags
+
+
+def gen_delegate(rng, exc):
+    steps = []
+    for _ in range(rng.randint(2, 7)):
+        r = rng.random()
+        if r < 0.45:
+            steps.append(["item", rng.choice(["x", "y", "px"]), rng.choice([2, 4, 10, 12, 3, "q"])])
+        elif r < 0.75:
+            steps.append([rng.choice(["proto0", "proto0", "proto1"]), rng.choice(["x", "y"]), rng.choice([2, 4, 14, 16, 5])])
+        elif r < 0.87:
+            steps.append(["item", "del", rng.choice(["x", "px"])])
+        else:
+            steps.append(["item", "swap", rng.choice([0, 1])])
+    cand = [j for j, st in enumerate(steps) if st[1] in ("x", "y", "px")]
+    if not cand:
+        return None
+    return {"scalar": "delegate", "steps": steps, "at": rng.choice(cand), "exc": exc, "observe": rng.randint(0, 1)}
+
+
+RUNNERS = {"delegate": run_delegate, "observe-filter": run_observe_filter, "legacy-chain": run_legacy_chain, "validator": run_validator, "default": run_default, "property": run_property,
            "adapter": run_adapter, "handler": run_handler, "adapter-trait": run_adapter_trait,
            "property-notify": run_property_notify}
 
@@ -819,13 +925,17 @@ def run(c):
 
 def generate(rng, n, excs):
     import json
-    vals = {"e": [2, 4, 3, "x", None], "n": [-1, -5, 2, "x"], "en": [2, -3, 3, "x", None],
+    vals = {"e": [2, 4, 3, "x", None], "n": [-1, -5, 2, "x"], "en": [2, -3, 3, "x", None], "un": [2, -3, -5, 3, "x", None],
             "t": [[2, -1, 4], [2, 2, 4], [3, -1, 4], [2, -1], "x"], "i": [1, 2, "x"], "s": ["a", 3],
             "de": [2, 6, 3, "x"], "dn": [-2, -7, 4, "x"]}
     for _ in range(n):
         r = rng.random()
         exc = rng.choice(excs)
-        if r < 0.45:
+        if rng.random() < 0.12:
+            c = gen_delegate(rng, exc)
+            if c is None:
+                continue
+        elif r < 0.45:
             steps = []
             for _ in range(rng.randint(1, 6)):
                 name = rng.choice(list(vals))
@@ -833,12 +943,12 @@ def generate(rng, n, excs):
                     steps.append([name, None, "get"])      # first read: materialises the dynamic default
                 else:
                     steps.append([name, rng.choice(vals[name]), rng.choice(["set", "set", "set", "trait_set", "trait_set", "setq", "qset"])])
-            cand = [j for j, s in enumerate(steps) if s[0] in ("e", "n", "en", "t", "de", "dn") and s[2] != "get"]
+            cand = [j for j, s in enumerate(steps) if s[0] in ("e", "n", "en", "un", "t", "de", "dn") and s[2] != "get"]
             if not cand:
                 continue
             at = rng.choice(cand)
-            kmax = {"e": 0, "n": 0, "en": 1, "t": 2, "de": 0, "dn": 0}[steps[at][0]]
-            if steps[at][0] == "en" and exc == "TraitError":
+            kmax = {"e": 0, "n": 0, "en": 1, "un": 1, "t": 2, "de": 0, "dn": 0}[steps[at][0]]
+            if steps[at][0] in ("en", "un") and exc == "TraitError":
                 # a TraitError inside one alternative of a compound *is* a rejection by that
                 # alternative (the next one is tried): not a failing callback in C19's sense
                 exc = "ValueError"
